@@ -379,3 +379,40 @@ def check_step_queues(chk, ix):
             chk.ok("F8", {"formatter": c.name, "reports": "the dequeued step", "queue_reset_at": "every boundary"}, nontrivial_key=c.fullname)
     if n_queue < 3:
         raise AnalysisError("step-queue formatters found: %d (expected plain, pretty, progress family)" % n_queue)
+
+
+WHAT["F11"] = "textutil.indent prefixes every line and keeps every line end (a rendered doc-string or table stays on its own lines)"
+
+
+def check_indent(chk, ix):
+    """F11: behave.textutil.indent constant-folded on text and on lists of lines."""
+    chk.rule("F11", WHAT["F11"])
+    f = ix.func("behave.textutil:indent")
+    cases = [("a\nb\n", "  "), ("a\nb", "  "), ("single\n", "    "), ("", "  "), ("x\n\ny\n", "> "),
+             (["l1\n", "l2\n"], "  "), (["l1", "l2"], "  "), ([], "  ")]
+
+    def oracle(text, prefix):
+        if isinstance(text, str):
+            return "".join(prefix + line for line in text.splitlines(True))
+        if text and not text[0].endswith("\n"):
+            return "\n".join(prefix + line for line in text)
+        return "".join(prefix + line for line in text)
+    it = Interp(ix, name="textutil.indent")
+    it.int_sat = 1000
+    it.list_cap = 100
+    for text, prefix in cases:
+        st = State()
+        st.frames = []
+        arg = st.alloc(HObj("list", kind="list", items=list(text))) if isinstance(text, list) else text
+        outs = it.call_function(st, f, [arg, prefix], {}, None)
+        chk.instance("F11")
+        if len(outs) != 1 or outs[0][1] != "val" or not isinstance(outs[0][2], str):
+            raise AnalysisError("textutil.indent not foldable on %r: %r" % (text, [(k, v) for _, k, v in outs][:2]))
+        want = oracle(text, prefix)
+        if outs[0][2] == want:
+            chk.ok("F11", {"text": text, "prefix": prefix, "indented": want}, nontrivial_key=repr((text, prefix)))
+        else:
+            _fail(chk, "F11", f.fullname, f.file, f.lineno, "%r -> %r" % (text, outs[0][2]),
+                  "indent(%r, %r) gives %r, expected %r: a line end is lost, so the next step is printed on the same line as the doc-string's "
+                  "closing quotes / the table's last row" % (text, prefix, outs[0][2], want))
+    chk.absorb(it)
